@@ -241,10 +241,14 @@ def forked(fn, timeout: float):
     the simulator does not control and that may block while holding the GIL).
     Returns ("ok", value) | ("exc", repr) | ("hang", None) | ("died", code)."""
     r, w = os.pipe()
+    rstate = random.getstate()
     pid = os.fork()
     if pid == 0:
         code = 0
         try:
+            # CPython re-seeds `random` from the OS in a forked child
+            # (os.register_at_fork); restore the run's seeded state
+            random.setstate(rstate)
             os.close(r)
             signal.setitimer(signal.ITIMER_REAL, 0)
             try:
